@@ -202,22 +202,6 @@ Proof.
     dbc s; sfu; eauto 10.
 Qed.
 
-(* cleanup: lp, and (freeze) pp dp ap *)
-Lemma step_cleanup_shape s e s' : step_cleanup s e = Some s' ->
-  exists p d a l,
-    s' = BC (conn_no s) (sess s) (clos s) (gproc s) (gdeq s) (gack s) (gcl s) (ph s) p d a l
-            (dying s) (will s) (cw s) (cpp s) (cps s) (tdeq s) (tpub s) (tsub s) (ackq s)
-    /\ ((p = pp s /\ d = dp s /\ a = ap s /\ lp s <> LNone) \/
-        (lp s = LNone /\ all_stopped s = true /\ p = PDone
-         /\ d = (match dp s with DOff => DOff | _ => DDone end)
-         /\ a = (match ap s with AOff => AOff | _ => ADone end))).
-Proof.
-  intros H. unfold step_cleanup, guard in H. destruct (lp s) eqn:Elp; destruct e; try discriminate H; bm H; inv_some H;
-    repeat match goal with Hx : _ && _ = true |- _ => apply andb_true_iff in Hx as [Hx ?] end;
-    dbc s; sfu; subst; do 4 eexists; (split; [reflexivity|]);
-    first [ left; repeat split; discriminate | right; repeat split; assumption ].
-Qed.
-
 (* ------------------------------------------------------- who made the step *)
 
 Definition is_rx (e : event) : bool := match e with ERx _ _ | ERxErr _ => true | _ => false end.
@@ -378,3 +362,91 @@ Proof.
       apply SC_quiet; auto.
   - rewrite (step_is_gen _ _ Es) in H. apply step_gen_cases, H.
 Qed.
+
+(* ------------------------------------------------ association lists, lists *)
+
+Lemma aget_filter_ne {A} (l : list (N * A)) k k' :
+  k' <> k -> aget (filter (fun e => negb (fst e =? k)) l) k' = aget l k'.
+Proof.
+  intros Hne. induction l as [|[j v] l IH]; cbn [filter aget fst]; [reflexivity|].
+  destruct (j =? k) eqn:Ej; cbn [negb aget].
+  - apply N.eqb_eq in Ej. subst j. destruct (k' =? k) eqn:E; [apply N.eqb_eq in E; contradiction|exact IH].
+  - destruct (k' =? j); [reflexivity|exact IH].
+Qed.
+
+Lemma aget_filter_eq {A} (l : list (N * A)) k :
+  aget (filter (fun e => negb (fst e =? k)) l) k = None.
+Proof.
+  induction l as [|[j v] l IH]; cbn [filter aget fst]; [reflexivity|].
+  destruct (j =? k) eqn:Ej; cbn [negb aget]; [exact IH|].
+  rewrite N.eqb_sym, Ej. exact IH.
+Qed.
+
+Lemma aget_aput_eq {A} (l : list (N * A)) k v : aget (aput l k v) k = Some v.
+Proof. unfold aput. cbn [aget]. rewrite N.eqb_refl. reflexivity. Qed.
+
+Lemma aget_aput_ne {A} (l : list (N * A)) k k' v : k' <> k -> aget (aput l k v) k' = aget l k'.
+Proof.
+  intros Hne. unfold aput. cbn [aget]. destruct (k' =? k) eqn:E; [apply N.eqb_eq in E; contradiction|].
+  apply aget_filter_ne, Hne.
+Qed.
+
+Lemma aget_adel_eq {A} (l : list (N * A)) k : aget (adel l k) k = None.
+Proof. apply aget_filter_eq. Qed.
+
+Lemma aget_adel_ne {A} (l : list (N * A)) k k' : k' <> k -> aget (adel l k) k' = aget l k'.
+Proof. apply aget_filter_ne. Qed.
+
+Lemma aget_cons_eq {A} (l : list (N * A)) k v : aget ((k, v) :: l) k = Some v.
+Proof. cbn [aget]. rewrite N.eqb_refl. reflexivity. Qed.
+
+Lemma aget_cons_ne {A} (l : list (N * A)) k k' v : k' <> k -> aget ((k, v) :: l) k' = aget l k'.
+Proof. intros Hne. cbn [aget]. destruct (k' =? k) eqn:E; [apply N.eqb_eq in E; contradiction|reflexivity]. Qed.
+
+Lemma nmem_true k l : nmem k l = true <-> In k l.
+Proof.
+  unfold nmem. rewrite existsb_exists. split.
+  - intros (x & Hx & E). apply N.eqb_eq in E. subst; exact Hx.
+  - intros H. exists k. split; [exact H|apply N.eqb_refl].
+Qed.
+
+Lemma nmem_false k l : nmem k l = false <-> ~ In k l.
+Proof.
+  rewrite <- nmem_true. destruct (nmem k l); split; intros H; try reflexivity; try discriminate.
+  - intros H'; discriminate.
+  - exfalso; apply H; reflexivity.
+Qed.
+
+Lemma in_nremove1 k x l : In x (nremove1 k l) -> In x l.
+Proof.
+  induction l as [|y l IH]; cbn [nremove1]; [tauto|].
+  destruct (y =? k); cbn [In]; tauto.
+Qed.
+
+Lemma in_nremove1_ne k x l : x <> k -> In x l -> In x (nremove1 k l).
+Proof.
+  intros Hne. induction l as [|y l IH]; cbn [nremove1 In]; [tauto|].
+  destruct (y =? k) eqn:E; cbn [In].
+  - apply N.eqb_eq in E. subst y. intros [H|H]; [congruence|exact H].
+  - tauto.
+Qed.
+
+Lemma nodup_nremove1 k l : NoDup l -> NoDup (nremove1 k l) /\ ~ In k (nremove1 k l).
+Proof.
+  induction 1 as [|y l Hy Hnd IH]; cbn [nremove1]; [split; [constructor|tauto]|].
+  destruct (y =? k) eqn:E.
+  - apply N.eqb_eq in E. subst y. split; assumption.
+  - apply N.eqb_neq in E. destruct IH as [IH1 IH2]. split.
+    + constructor; [|exact IH1]. intros H. apply Hy. eapply in_nremove1, H.
+    + cbn [In]. intros [H|H]; [congruence|tauto].
+Qed.
+
+Lemma first_some_inv a b x : first_some a b = Some x -> a = Some x \/ (a = None /\ b = Some x).
+Proof. unfold first_some. destruct a; intros H; [left; exact H|right; split; [reflexivity|exact H]]. Qed.
+
+(* ---------------------------------------------------------- session stores *)
+
+Lemma s_in_sess_save_out s p : s_in (sess (sess_save s Outgoing p)) = s_in (sess s).
+Proof. reflexivity. Qed.
+Lemma s_in_sess_delete_out s i : s_in (sess (sess_delete s Outgoing i)) = s_in (sess s).
+Proof. reflexivity. Qed.
